@@ -12,7 +12,7 @@ import os
 from pathlib import Path
 
 from .ir import TranslateError
-from .kernel import (BUILTIN_PRIMS, Closure, Executor, Num, Obj, Prim, Sc, Static, Vec, fail, find_function, lift, materialise, run_function, set_carrier, term_of,
+from .kernel import (BUILTIN_PRIMS, Closure, Method, Executor, Num, Obj, Prim, Sc, Static, Vec, fail, find_function, lift, materialise, run_function, set_carrier, term_of,
                      to_sc)
 
 
@@ -51,9 +51,11 @@ def O(name):
 class Kernel:
     """one generated definition group: a source function and the Coq definitions printed from its symbolic result"""
 
-    def __init__(self, name, file, cls, func, bindings, params, outputs, prims=None, variables=(), module_funcs=(), carrier="R", obj_methods=None):
+    def __init__(self, name, file, cls, func, bindings, params, outputs, prims=None, variables=(), module_funcs=(), carrier="R", obj_methods=None,
+                 opaque_attrs=None):
         self.carrier = carrier
         self.obj_methods = obj_methods or {}
+        self.opaque_attrs = opaque_attrs or {}
         self.name, self.file, self.cls, self.func = name, file, cls, func
         self.bindings = bindings          # callable () -> dict parameter name -> symbolic value
         self.params = params              # Coq binder text of the generated definitions
@@ -538,6 +540,85 @@ _OFFSCAN_PARAMS = ("{S PS O CB : Type} (n : nat) (E : env S Q O) (P : acpol PS Q
                    "(es : S) (ps : PS) (cbs : CB) (buf : @obuf PS O) (k : kpath)")
 
 
+# ------------------------------------------------------------------------------------------------ C11 / C12: iteration of on-policy learners
+def _alg_state(fields):
+    """an algorithm state object: its `next` and `with_callback_states` methods are the ones of AbstractAlgorithmState in the source"""
+    o = Obj(dict(fields), "alg_state")
+    for nm in ("next", "with_callback_states"):
+        m = _method("algorithm/base_algorithm.py", "AbstractAlgorithmState", nm, o)
+        m.closure.scope = {}
+        o.fields[nm] = m
+    return o
+
+
+def _tree_at_state(ex, n, args, kwargs):
+    """eqx.tree_at on an algorithm state: the result is again a state object with its methods bound to itself"""
+    r = _tree_at(ex, n, args, kwargs)
+    return _alg_state({k: v for k, v in r.fields.items() if not isinstance(v, Method)})
+
+
+def _oniter_bind():
+    def collect1(ex, n, a, k):
+        if len(a) != 5 or k:
+            fail(n, "collect_rollout call form")
+        x = f"(collect1 {a[1].t} {a[2].t} {a[4].t})"
+        return (Sc("O", f"(fst {x})"), Sc("O", f"(snd {x})"))
+
+    def vmapped(ex, n, a, k):
+        want = "(None, None, eqx.if_array(0), None, 0)"
+        got = ast.unparse([kw.value for kw in n.keywords if kw.arg == "in_axes"][0]) if any(kw.arg == "in_axes" for kw in n.keywords) else None
+        if len(a) != 1 or got != want or not isinstance(a[0], Prim):
+            fail(n, f"filter_vmap of collect_rollout with in_axes {got} (expected {want}: environment, policy and callback shared, step state and keys per environment)")
+
+        def call(ex2, n2, a2, k2):
+            if len(a2) != 5 or k2 or not (isinstance(a2[4], Vec) and a2[4].ety == "K"):
+                fail(n2, "vmapped collect_rollout call form")
+            x = f"(collectN {a2[1].t} {a2[2].t} {materialise(a2[4])})"
+            return (Sc("O", f"(fst {x})"), Sc("O", f"(snd {x})"))
+        return Prim(call)
+
+    def train(ex, n, a, k):
+        if len(a) != 3 or set(k) != {"key"}:
+            fail(n, "train call form")
+        x = f"(train {a[0].t} {a[1].t} {a[2].t} {k['key'].t})"
+        return (Sc("O", f"(fst (fst {x}))"), Sc("O", f"(snd (fst {x}))"), Sc("O", f"(snd {x})"))
+
+    def on_iteration(ex, n, a, k):
+        if len(a) != 1 or set(k) != {"key"} or not isinstance(a[0], Obj):
+            fail(n, "on_iteration call form")
+        c = a[0].fields
+        return Sc("O", f"(cb_iter {c['state'].t} {to_sc(c['iteration_count'], 'Z', n).t} {c['step_state'].t} {c['policy'].t} {c['opt_state'].t} {k['key'].t})")
+
+    def iter_ctx(ex, n, a, k):
+        names = ["state", "step_state", "env", "policy", "iteration_count", "opt_state", "training_log", "algorithm", "locals"]
+        f = dict(zip(names, a)); f.update(k)
+        if set(f) != set(names):
+            fail(n, "IterationContext form")
+        return Obj(f, "IterationContext")
+    selfo = Obj({"num_envs": Z("(Z.of_nat N)"), "collect_rollout": Prim(collect1), "train": Prim(train),
+                 "per_iteration": Prim(lambda ex, n, a, k: a[0] if len(a) == 1 and not k else fail(n, "per_iteration form")), "@name": O("algo")}, "algo")
+    state = _alg_state({"iteration_count": Z("cnt"), "step_state": O("ss"), "env": O("env"), "policy": O("pol"), "opt_state": O("opt"),
+                        "callback_state": O("cbs")})
+    return {"self": selfo, "state": state, "key": K("k"), "callback": Obj({"on_iteration": Prim(on_iteration), "@name": O("cb")}, "callback"),
+            "@IterationContext": Prim(iter_ctx), "@locals": Prim(lambda ex, n, a, k: Static("locals")),
+            "@eqx.filter_vmap": Prim(vmapped), "@eqx.if_array": Prim(lambda ex, n, a, k: Static("if_array")), "@eqx.tree_at": Prim(_tree_at_state)}
+
+
+def _oniter_out(res, ex):
+    if not (isinstance(res, Obj) and res.name == "alg_state"):
+        raise TranslateError("iteration no longer returns the algorithm state")
+    f = res.fields
+    if term_of(f["env"]) != "env":
+        raise TranslateError("iteration changes the environment")
+    return [("count", "Z", term_of(f["iteration_count"], "Z")), ("step_state", "SS", term_of(f["step_state"])),
+            ("policy", "X", term_of(f["policy"])), ("opt_state", "OS", term_of(f["opt_state"])), ("callback_state", "CB", term_of(f["callback_state"]))]
+
+
+_ONITER_PARAMS = ("{SS X OS BUF LOG CB SCB : Type} (N : nat) (collect1 : X -> SS -> kpath -> SS * BUF) (collectN : X -> SS -> list kpath -> SS * BUF) "
+                  "(train : X -> OS -> BUF -> kpath -> X * OS * LOG) (ss_cb : SS -> SCB) (cb_iter : CB -> Z -> SCB -> X -> OS -> kpath -> CB) "
+                  "(cnt : Z) (ss : SS) (pol : X) (opt : OS) (cbs : CB) (k : kpath)")
+
+
 def _step_out(res, ex):
     if not (isinstance(res, tuple) and len(res) == 6):
         raise TranslateError("step no longer returns (state, observation, reward, terminal, truncate, info)")
@@ -725,6 +806,8 @@ def _gait_init_out(res, ex):
 _GAIT = "env/unitree/g1/gait.py"
 
 KERNELS = {
+    "C11": [Kernel("oniter", "algorithm/on_policy.py", "AbstractOnPolicyAlgorithm", "iteration", _oniter_bind, _ONITER_PARAMS, _oniter_out,
+                   opaque_attrs={"callback_state": "ss_cb"})],
     "C20": [Kernel("gait_initial", _GAIT, None, "initial_gait_phase", lambda: {}, "(u : unit)", _gait_init_out),
             Kernel("gait_advance", _GAIT, None, "advance_gait_phase", lambda: {"phase": R("ph"), "frequency": R("f"), "dt": R("dt")},
                    "(ph f dt : R)", lambda res, ex: [("value", "R", term_of(res, "R"))], prims={"jnp.fmod": Prim(_p_fmod)}),
@@ -842,6 +925,7 @@ def translate(pid):
             set_carrier(k.carrier)
             ex = Executor(prims=k.prims)
             ex.obj_methods = k.obj_methods
+            ex.opaque_attrs = k.opaque_attrs
             scope = {}
             if k.module_funcs:
                 tree = ast.parse(path.read_text())
@@ -877,7 +961,7 @@ def coq_text(pid, imports=()):
     return "\n".join(parts)
 
 
-IMPORTS = {"C19": ("Logging",), "C06": ("Replay",), "C01": ("Env",), "C13": ("Env",), "C04": ("Env", "OnPolicy"), "C05": ("Env", "OnPolicy", "Replay", "OffPolicy"), "C20": ("Gait",)}
+IMPORTS = {"C19": ("Logging",), "C06": ("Replay",), "C01": ("Env",), "C13": ("Env",), "C04": ("Env", "OnPolicy"), "C05": ("Env", "OnPolicy", "Replay", "OffPolicy"), "C20": ("Gait",), "C11": ("Env", "Observers")}
 
 
 def generate(pid, coq_dir: Path):
